@@ -98,7 +98,7 @@ impl GeAffine {
             x = &x * &Fe::SQRTM1;
         }
 
-        if x.is_negative() == ((s[31] >> 7) != 0) {
+        if x.is_negative() != ((s[31] >> 7) != 0) {
             x.negate_mut();
         }
         Some(Self { x, y })
@@ -275,6 +275,16 @@ impl Ge {
     /// and the sign of the x coordinate (1 bit) as the highest bit.
     pub fn from_bytes(s: &[u8; 32]) -> Option<Ge> {
         GeAffine::from_bytes(s).map(Self::from_affine)
+    }
+
+    /// Negate the point: (x, y) becomes (-x, y)
+    pub fn negate(&self) -> Ge {
+        Ge {
+            x: -&self.x,
+            y: self.y.clone(),
+            z: self.z.clone(),
+            t: -&self.t,
+        }
     }
 
     /// Drop the t coordinate to become a `GePartial`
